@@ -84,6 +84,17 @@ def forms(t, zones):
     yield 'struct_time-isdst1', st1, t
     st2 = time.struct_time(tuple(st[:8]) + (-1,))
     yield 'struct_time-isdst-1', st2, t
+    if t % 3 == 0 and t >= 60:
+        # a leap-second style field: second 60 / 61 of the minute before
+        # (plain arithmetic on the fields read as UTC, whatever the zone)
+        before = (aware - datetime.timedelta(seconds=60 + t % 60)).replace(
+            tzinfo=None)
+        for sec in (60, 61):
+            yield 'struct_time-sec%d' % sec, time.struct_time((
+                before.year, before.month, before.day, before.hour,
+                before.minute, sec, before.weekday(),
+                before.timetuple().tm_yday, -1 if sec == 60 else 0)), \
+                t - 60 - t % 60 + sec
     # 11-field struct_times (as time.localtime / strptime('%z') build them):
     # the zone name and UTC offset they carry do not change the reading -
     # the fields are read as UTC whatever they say
